@@ -89,7 +89,8 @@ pub fn build(r: &RawData) -> (Vec<Ln>, Shape) {
     let mut tail: Vec<Ln> = vec![];
     let mut ni = 0usize;
     let mut fresh = |names: &Vec<String>| {
-        let n = names[ni % names.len()].clone();
+        // (beyond the pool the names get a suffix no pool name can have: one name is never handed out twice)
+        let n = if ni < names.len() { names[ni].clone() } else { format!("{}w{}", names[ni % names.len()], ni / names.len()) };
         ni += 1;
         n
     };
